@@ -492,6 +492,12 @@ def _ek_gen(rng):
              ksigma=[[[10 ** rng.uniform(-31, -25) for _ in range(NG)] for _ in range(W)] for _ in range(n)])
     for k in range(M):
         d['sigma%d' % k] = [[10 ** rng.uniform(-31, -25) for _ in range(W)] for _ in range(n)]
+    if rng.random() < 0.35:
+        # optically thick regime: every layer saturated at every wavenumber and quadrature point (where cut-offs would act)
+        d['ksigma'] = [[[10 ** rng.uniform(-25, -22) for _ in range(NG)] for _ in range(W)] for _ in range(n)]
+        if rng.random() < 0.5:
+            for k in range(M):
+                d['sigma%d' % k] = [[10 ** rng.uniform(-25, -22) for _ in range(W)] for _ in range(n)]
     return d
 
 
